@@ -1,10 +1,200 @@
 /-
-  EG.Driver.Scale — model side of the `scale.*` correspondence streams (harness/src/m_scale.rs).
+  EG.Driver.Scale — model side of the `scale.chk.*` correspondence streams
+  (harness/src/m_scale_chk.rs): every op runs ONE checked kernel of `EG.Model.Checked*` at the
+  given integers and prints its canonical result, or `panic` where the checked kernel returns
+  `none` (= a build with overflow checks and debug assertions panics there). The other `scale.*`
+  streams (`scale.shape/text/image/reject`) have no model: oracle only (`skip`).
 -/
 import EG.Driver.Util
+import EG.Model.Checked
+import EG.Model.CheckedShapes
+import EG.Model.CheckedLine
+import EG.Model.CheckedData
 namespace EG.Driver
 open EG
 
-def handleScale (_stream : String) (_t : Toks) : Option String := none
+private def orPanic {α : Type} (f : α → String) : Option α → String
+  | some a => f a
+  | none => "panic"
+
+private def fmtBool (b : Bool) : String := if b then "1" else "0"
+
+private def anchorXOf (n : Nat) : AnchorX := if n == 0 then .left else if n == 1 then .center else .right
+private def anchorYOf (n : Nat) : AnchorY := if n == 0 then .top else if n == 1 then .center else .bottom
+
+/-- `Line::points().take(n)`: `Points::new` (major length, parameters), then at most `n` calls. -/
+private def linePointsTake (l : Line) (n : Nat) : Option (List Pt) := do
+  let len ← Chk.majorLength l
+  let params ← Chk.bresenhamParametersNew l
+  Chk.linePointsFuel n ⟨params, Bresenham.new l.start, len⟩
+
+/-- `line.into_styled(stroke w).pixels().take(n)`: the checked scalars of `ParallelsIterator::new`
+decide about the panic, the points come from the plain thick-line model. -/
+private def thickTake (l : Line) (w n : Nat) : String :=
+  match Chk.thickScalars l (satAsI32 w) with
+  | none => "panic"
+  | some _ =>
+    match Thick.ThickPointsIt.new l (satAsI32 w) with
+    | none => "stuck"
+    | some it =>
+      if w = 0 then "-"
+      else match it.toListFuel n with
+        | none => "stuck"
+        | some ps => fmtPts ps
+
+/-- The arithmetic kernels on the path of `LineJoin::from_points(p0, p1, p2, w, StrokeOffset::None)`
+in their order of evaluation; `none` = one of them overflows. The extents come from the plain
+thick-line model (`some ()` when that model gives up). -/
+private def joinKernel (p0 p1 p2 : Pt) (w : Nat) : Option Unit := do
+  -- `Line::extents` of both segments starts with `ParallelsIterator::new`
+  let _ ← Chk.thickScalars ⟨p0, p1⟩ (satAsI32 w)
+  let _ ← Chk.thickScalars ⟨p1, p2⟩ (satAsI32 w)
+  match Thick.extents ⟨p0, p1⟩ w, Thick.extents ⟨p1, p2⟩ w with
+  | some (fl, fr), some (sl, sr) => do
+    let r1 ← Chk.Isect.fromLines sl fl
+    let i1 ← Chk.Isect.intersection r1.1 r1.2.1 r1.2.2
+    match i1 with
+    | none => pure ()
+    | some (lpt, outerLeft) =>
+      let nc1 ← Chk.Isect.nearlyColinearHasError sl fl r1.2.2
+      let lInter := if !nc1 then lpt else fl.stop
+      let r2 ← Chk.Isect.fromLines sr fr
+      let i2 ← Chk.Isect.intersection r2.1 r2.2.1 r2.2.2
+      match i2 with
+      | none => pure ()
+      | some (rpt, _) =>
+        let nc2 ← Chk.Isect.nearlyColinearHasError sr fr r2.2.2
+        let rInter := if !nc2 then rpt else fr.stop
+        let selfIntersection ←
+          if outerLeft then do
+            let le ← Chk.Isect.fromLine fr
+            let d ← Chk.Isect.distance le sr.stop
+            pure (decide (d ≤ 0))
+          else do
+            let le ← Chk.Isect.fromLine fl
+            let d ← Chk.Isect.distance le sl.stop
+            pure (decide (d ≥ 0))
+        if !selfIntersection then do
+          let miterDelta ← Chk.ptSub (if outerLeft then lInter else rInter) p1
+          let _ ← Chk.Isect.miterWithinLimit miterDelta w
+          pure ()
+        else pure ()
+  | _, _ => pure ()
+
+private def rawBuf (len : Nat) : List Nat := (List.range len).map (fun i => (i * 29 + 5) % 256)
+
+private def rawLoad (bits : Nat) (o : Raw.Order) (buf : List Nat) (idx : Nat) : Option Nat :=
+  if bits < 8 then Raw.loadBits bits o buf idx
+  else if bits = 8 then Raw.loadU8 buf idx
+  else Chk.loadBytes (bits / 8) o buf idx
+
+private def rawStore (bits : Nat) (o : Raw.Order) (v : Nat) (buf : List Nat) (idx : Nat) : Raw.StoreRes :=
+  if bits < 8 then Raw.storeBits bits o v buf idx
+  else if bits = 8 then Raw.storeU8 v buf idx
+  else Chk.storeBytes (bits / 8) o v buf idx
+
+private def orderOf (n : Nat) : Raw.Order := if n == 0 then .le else .be
+
+private def handleChk (kernel : String) (t : Toks) : Option String :=
+  match kernel with
+  | "pt.addsize" =>
+    let (p, t) := t.pt; let (s, _) := t.sz
+    some (orPanic fmtPt (Chk.ptAddSize p s))
+  | "pt.subsize" =>
+    let (p, t) := t.pt; let (s, _) := t.sz
+    some (orPanic fmtPt (Chk.ptSubSize p s))
+  | "rect.br" =>
+    let (r, _) := t.rect
+    some (orPanic fmtOptPt (Chk.bottomRight r))
+  | "rect.contains" =>
+    let (r, t) := t.rect; let (p, _) := t.pt
+    some (orPanic fmtBool (Chk.contains r p))
+  | "rect.isect" =>
+    let (a, t) := t.rect; let (b, _) := t.rect
+    some (orPanic fmtRect (Chk.intersection a b))
+  | "rect.envelope" =>
+    let (a, t) := t.rect; let (b, _) := t.rect
+    some (orPanic fmtRect (Chk.envelope a b))
+  | "rect.center" =>
+    let (r, _) := t.rect
+    some (orPanic fmtPt (Chk.center r))
+  | "rect.withcenter" =>
+    let (c, t) := t.pt; let (s, _) := t.sz
+    some (orPanic fmtRect (Chk.withCenter c s))
+  | "rect.offset" =>
+    let (r, t) := t.rect; let (o, _) := t.int
+    some (orPanic fmtRect (Chk.offset r o))
+  | "rect.resized" =>
+    let (r, t) := t.rect; let (s, t) := t.sz; let (ax, t) := t.nat; let (ay, _) := t.nat
+    some (orPanic fmtRect (Chk.resized r s ⟨anchorXOf ax, anchorYOf ay⟩))
+  | "rect.anchor" =>
+    let (r, t) := t.rect; let (ax, t) := t.nat; let (ay, _) := t.nat
+    some (orPanic fmtPt (Chk.anchorPoint r ⟨anchorXOf ax, anchorYOf ay⟩))
+  | "rect.translate" =>
+    let (r, t) := t.rect; let (d, _) := t.pt
+    some (orPanic fmtRect (Chk.translate r d))
+  | "circle.contains" =>
+    let (tl, t) := t.pt; let (d, t) := t.nat; let (p, _) := t.pt
+    some (orPanic fmtBool (Chk.Circle.contains ⟨tl, d⟩ p))
+  | "circle.offset" =>
+    let (tl, t) := t.pt; let (d, t) := t.nat; let (o, _) := t.int
+    some (orPanic (fun (c : Circle) => s!"{c.tl.x},{c.tl.y},{c.d}") (Chk.Circle.offset ⟨tl, d⟩ o))
+  | "ellipse.contains" =>
+    let (tl, t) := t.pt; let (s, t) := t.sz; let (p, _) := t.pt
+    some (orPanic fmtBool (Chk.Ellipse.contains ⟨tl, s⟩ p))
+  | "ellipse.offset" =>
+    let (tl, t) := t.pt; let (s, t) := t.sz; let (o, _) := t.int
+    some (orPanic (fun (e : Ellipse) => fmtRect ⟨e.tl, e.size⟩) (Chk.Ellipse.offset ⟨tl, s⟩ o))
+  | "line.points" =>
+    let (a, t) := t.pt; let (b, t) := t.pt; let (n, _) := t.nat
+    some (orPanic fmtPts (linePointsTake ⟨a, b⟩ n))
+  | "thick" =>
+    let (a, t) := t.pt; let (b, t) := t.pt; let (w, t) := t.nat; let (n, _) := t.nat
+    some (thickTake ⟨a, b⟩ w n)
+  | "join" =>
+    let (p0, t) := t.pt; let (p1, t) := t.pt; let (p2, t) := t.pt; let (w, _) := t.nat
+    match joinKernel p0 p1 p2 w with
+    | none => some "panic"
+    | some _ => none      -- no overflow in the modelled kernels; the rest of the drawing is not modelled
+  | "img.new" =>
+    let (bits, t) := t.nat; let (s, t) := t.sz; let (len, _) := t.nat
+    some (orPanic (fun (r : Except Nat Img.ImageRaw) => match r with
+        | .ok _ => "ok"
+        | .error e => s!"err:{e}")
+      (Chk.imageNew bits .le (List.replicate len 0) s))
+  | "raw.load" =>
+    let (bits, t) := t.nat; let (o, t) := t.nat; let (len, t) := t.nat; let (idx, _) := t.nat
+    some (match rawLoad bits (orderOf o) (rawBuf len) idx with
+      | none => "none"
+      | some v => toString v)
+  | "raw.store" =>
+    let (bits, t) := t.nat; let (o, t) := t.nat; let (len, t) := t.nat; let (idx, _) := t.nat
+    let r := rawStore bits (orderOf o) (Raw.rawNew bits 0x5A5A5A5A) (rawBuf len) idx
+    some (if r.1 then s!"ok:{fmtNats r.2}" else "err")
+  | "sub" =>
+    let (ps, t) := t.sz; let (area, _) := t.rect
+    some (orPanic (fun (p : Rect × Rect) => s!"{p.1.size.w},{p.1.size.h} {p.2.size.w},{p.2.size.h}")
+      (do
+        let a1 ← Chk.subImageArea ps area
+        let a2 ← Chk.subImageArea a1.size area
+        pure (a1, a2)))
+  | "text" =>
+    let (_fi, t) := t.nat
+    let (cw, t) := t.nat; let (ch, t) := t.nat; let (sp, t) := t.nat; let (bl, t) := t.nat
+    let (lhk, t) := t.nat; let (lhv, t) := t.nat
+    let (baseline, t) := t.nat; let (align, t) := t.nat
+    let (pos, t) := t.pt; let (nlines, t) := t.nat; let (nchars, _) := t.nat
+    let lh : TextM.LineHeight :=
+      if lhk == 0 then .percent 100 else if lhk == 1 then .pixels lhv else .percent lhv
+    let b : TextM.Baseline :=
+      if baseline == 0 then .top else if baseline == 1 then .bottom
+      else if baseline == 2 then .middle else .alphabetic
+    let al : TextM.Alignment :=
+      if align == 0 then .left else if align == 1 then .center else .right
+    some (orPanic fmtRect (Chk.TextM.boundingBox ⟨cw, ch, sp, bl⟩ lh b al pos nlines nchars))
+  | _ => none
+
+def handleScale (stream : String) (t : Toks) : Option String :=
+  if stream.startsWith "scale.chk." then handleChk (stream.drop 10).toString t else none
 
 end EG.Driver
